@@ -297,7 +297,22 @@ func runC10(r *Report, rng *rand.Rand, thorough bool) {
 				// allOf is transitive, so the merged type is the same
 				nest := "flat"
 				if len(allOf) >= 2 {
-					switch i % 3 {
+					switch i % 5 {
+					case 3:
+						// a one-member allOf (the "decorate a reference" idiom) around the nested composition
+						nest = "wrapped-ref"
+						comps["Nest"] = map[string]any{"allOf": []any{allOf[0], allOf[1]}}
+						comps["Wrap"] = map[string]any{"description": "decorated", "allOf": []any{map[string]any{"$ref": "#/components/schemas/Nest"}}}
+						allOf = append([]any{map[string]any{"$ref": "#/components/schemas/Wrap"}}, allOf[2:]...)
+						if len(allOf) == 1 {
+							allOf = append(allOf, map[string]any{"type": "object"})
+						}
+					case 4:
+						nest = "wrapped-inline"
+						allOf = append(append([]any{}, allOf[2:]...), map[string]any{"allOf": []any{map[string]any{"allOf": []any{allOf[0], allOf[1]}}}})
+						if len(allOf) == 1 {
+							allOf = append([]any{map[string]any{"type": "object"}}, allOf...)
+						}
 					case 1:
 						nest = "nested-ref"
 						comps["Nest"] = map[string]any{"allOf": []any{allOf[0], allOf[1]}}
@@ -511,5 +526,5 @@ func runC10(r *Report, rng *rand.Rand, thorough bool) {
 			r.Violate(w.sig, msg, map[string]any{"spec": json.RawMessage(w.spec)})
 		}
 	}
-	r.Rule = "hook level: pairs of schemas over type {absent, object, string} x format x required x properties (4 names, 2 value types) x additionalProperties {absent, true, false, schema s, schema i} x nullable through mergeOpenapiSchemas vs the model (result or rejection) and vs the statement; end to end: allOf lists of 1-3 compatible members (alternately $ref and inline, overlapping identical properties, additionalProperties true/false/schema) in EVERY permutation x {flat, first two members nested by reference, nested inline} x old/new merge mode through codegen.Generate, struct fields (names, pointer-ness from required, additional-properties type) vs the union of the members and equal across permutations; one component shared by 2-3 compositions (reference first / last, emitted before / after them): every type has exactly its own members' properties; the two refuted clauses replayed; non-trivial = at least two members / a successful merge"
+	r.Rule = "hook level: pairs of schemas over type {absent, object, string} x format x required x properties (4 names, 2 value types) x additionalProperties {absent, true, false, schema s, schema i} x nullable through mergeOpenapiSchemas vs the model (result or rejection) and vs the statement; end to end: allOf lists of 1-3 compatible members (alternately $ref and inline, overlapping identical properties, additionalProperties true/false/schema) in EVERY permutation x {flat, first two members nested by reference, nested inline, nested behind a one-member allOf by reference / inline} x old/new merge mode through codegen.Generate, struct fields (names, pointer-ness from required, additional-properties type) vs the union of the members and equal across permutations; one component shared by 2-3 compositions (reference first / last, emitted before / after them): every type has exactly its own members' properties; the two refuted clauses replayed; non-trivial = at least two members / a successful merge"
 }
